@@ -837,9 +837,18 @@ class FD:
         if isinstance(e.slice, ast.Slice):
             lo = self.eval(e.slice.lower, env) if e.slice.lower else None
             hi = self.eval(e.slice.upper, env) if e.slice.upper else None
-            if base is UNKNOWN:
+            if base is UNKNOWN or lo is UNKNOWN or hi is UNKNOWN:
                 return UNKNOWN
-            return base[lo:hi]
+            if isinstance(base, (str, bytes, list, tuple)):
+                try:
+                    return base[lo:hi]
+                except TypeError as ex:
+                    raise Raised('TypeError', str(ex))
+            if isinstance(base, (set, frozenset, int, float, bool, type(None), dict)):
+                raise Raised('TypeError', "%r object is not subscriptable" % type(base).__name__)
+            if isinstance(base, Obj) and 'method:__getitem__' in base.attrs:
+                return base.attrs['method:__getitem__'](slice(lo, hi))
+            raise Inconclusive('fdeval: slice of %r' % (base,))
         idx = self.eval(e.slice, env)
         if base is UNKNOWN or idx is UNKNOWN:
             return UNKNOWN
@@ -1480,10 +1489,18 @@ class FD:
                 f = _BIN.get(type(st.op))
                 if f is None:
                     raise Inconclusive('fdeval: augassign op')
-                try:
-                    v = f(cur, rhs)
-                except ZeroDivisionError:
-                    raise Raised('ZeroDivisionError')
+                if isinstance(cur, (Opaque, Obj)) or isinstance(rhs, (Opaque, Obj)):
+                    if self.binop_hook is not None:
+                        v = self.binop_hook(st.op, cur, rhs)
+                    else:
+                        v = UNKNOWN
+                else:
+                    try:
+                        v = f(cur, rhs)
+                    except ZeroDivisionError:
+                        raise Raised('ZeroDivisionError')
+                    except TypeError as ex:
+                        raise Raised('TypeError', str(ex))
             self.assign(st.target, v, env)
             return
         if isinstance(st, ast.If):
